@@ -388,7 +388,12 @@ AddFile(t) ==                               \* lib.rs:1377-1485; n1 = 1: MPQ_FIL
             IF ~r.mut THEN Finish(t, 0, <<>>, "access_denied") /\ UNCHANGED <<varch, vlock>>
             ELSE IF Arg(t).name \notin Names THEN Finish(t, 0, <<>>, "other") /\ UNCHANGED <<varch, vlock>>
             ELSE IF r.sess[Arg(t).name] # None /\ Arg(t).n1 = 0
-                 THEN Finish(t, 0, <<>>, "exists") /\ UNCHANGED <<varch, vlock>>
+                 THEN \* without MPQ_FILE_REPLACEEXISTING StormLib answers ERROR_ALREADY_EXISTS; lib.rs leaves
+                      \* AddFileOptions::replace_existing at its default (true) and replaces.  C19 does not
+                      \* state either behaviour (the Rust API with the same options agrees): both are accepted.
+                      \/ Finish(t, 0, <<>>, "exists") /\ UNCHANGED <<varch, vlock>>
+                      \/ /\ varch' = [varch EXCEPT ![Arg(t).h].sess[Arg(t).name] = Arg(t).dat]
+                         /\ Finish(t, 1, <<>>, "ok") /\ UNCHANGED vlock
             ELSE IF r.sess[Arg(t).name] = None /\ Used(r) >= r.cap
                  THEN IF "ProbeForever" \in Dev
                       THEN \* AF_ProbeForever: the probe loop never ends; ARCHIVES stays locked
